@@ -77,6 +77,21 @@ def history(r, M, thorough):
         else:
             ops.append("tpc list")
     ops.append("tpc list")
+    # closing segment: whatever happened before, after a bulk prepare + compute every alias (none, 1<->2, 3<->4, both)
+    # of a few quadruples with a good chance of a non-zero chi is read at generic frequencies (n1 != n2, n3 generic)
+    close = []
+    for _ in range(2):
+        i, j = r.below(M), r.below(M)
+        close.append(r.choice([[i, j, j, i], [i, j, i, j], list(r.choice(pool))]))
+    ops.append("tpc prepareall %d %s" % (len(close), " ".join("%d %d %d %d" % tuple(q) for q in close)))
+    ops.append("tpc computeall %d" % r.below(2))
+    for q in close:
+        for v in ([q[0], q[1], q[2], q[3]], [q[1], q[0], q[2], q[3]], [q[0], q[1], q[3], q[2]], [q[1], q[0], q[3], q[2]]):
+            n1 = r.range(-2, 2)
+            n2 = n1 + r.choice([1, -1, 2])
+            n3 = r.choice([n1 + 1, n2 + 1, n1 - 2])
+            ops.append("tpc get %d %d %d %d %d %d %d" % (tuple(v) + (n1, n2, n3)))
+    ops.append("tpc evalall %d %d %d" % trip())
     return ops
 
 
